@@ -244,6 +244,20 @@ def run(ctx):
         if got != want:
             ctx.spec_fail('sub|wrong-cells', 'sub does not apply re.sub(pattern, repl) to the cells of the field (and to nothing else)',
                           {'table': repr(T), 'pattern': pat, 'repl': repr(repl), 'count': count, 'flags': int(flags), 'real': got, 'want': want})
+    # ---- the *all forms touch every field, also fields that share a name
+    for ci in range(60 if ctx.thorough() else 20):
+        hdr = rng.choice([['foo', 'foo', 'bar'], ['a', 'b', 'a'], ['x', 'x'], ['p', 'q', 'r']])
+        T = [hdr] + [[rng.choice(['a', 'b', 'c']) for _ in hdr] for _ in range(rng.choice([1, 2, 3]))]
+        for name, call, f in (('convertall', lambda: etl.convertall(T, 'upper'), lambda v: v.upper()),
+                              ('replaceall', lambda: etl.replaceall(T, 'b', 'X'), lambda v: 'X' if v == 'b' else v),
+                              ('convertall(dict)', lambda: etl.convertall(T, {'a': 'A'}), lambda v: 'A' if v == 'a' else v)):
+            got = util.run_show(call)
+            want = util.show_out([tuple(hdr)] + [tuple(f(v) for v in r) for r in T[1:]])
+            ctx.case((name, repr(T)))
+            ctx.count('op:' + name.split('(')[0] + '(duplicate names)')
+            if got != want:
+                ctx.spec_fail('%s|duplicate-field-names' % name.split('(')[0], '%s does not convert every field of a table whose field names repeat' % name,
+                              {'table': repr(T), 'real': got, 'want': want})
     # ---- rename: all entries of a spec refer to the header as it was (swaps and chains included), by dict and by item assignment
     for ci in range(60 if ctx.thorough() else 20):
         hdr = ['foo', 'bar', 'baz']
